@@ -492,7 +492,7 @@ def _fmt(name, threads, samples, **kw):
     return _reg(i)
 
 
-QUICK += [_fmt("arc_rich_api_t1", 1, _RICH, preempt=0).name, _fmt("arc_rich_multi_t2_store", 2, _RICH, preempt=0, driver="multi", zstd="store").name,
+QUICK += [_fmt("arc_rich_api_t1", 1, _RICH, preempt=0, cross=True).name, _fmt("arc_rich_multi_t2_store", 2, _RICH, preempt=0, driver="multi", zstd="store").name,
           _fmt("arc_edit_subst_t1", 1, _TWO, preempt=0, edits=[("subst", 1, 0)]).name,
           _fmt("arc_packsize3_t1", 1, _THREE, preempt=0, pack_size=Int(64, 0, 3)).name]           # -l 3: the params stream must still describe the physical packs of 50
 THOROUGH += ["arc_rich_api_t1", "arc_rich_multi_t2_store", "arc_edit_subst_t1", _fmt("T_arc_edit_indel_rc_t1", 1, _TWO, preempt=0, edits=[("rc", 1, 0), ("del", 1, 0), ("ins", 1, 0)]).name,
